@@ -22,7 +22,7 @@ NBRS = ((-1, 0), (0, 1), (1, 0), (0, -1))
 def params(cfg):
     return {
         "grid_size": cfg.get("grid_size", 10), "agents": cfg.get("agents", 10), "time_limit": cfg.get("time_limit", 50),
-        "gen": "uniform" if cfg.get("gen") == "uniform" else "walk", "connected_reward": 1.0, "timestep_reward": -0.03,
+        "gen": "uniform" if cfg.get("gen") == "uniform" else "walk", "connected_reward": float(cfg.get("reward_coeffs", [1.0, -0.03])[0]), "timestep_reward": float(cfg.get("reward_coeffs", [1.0, -0.03])[1]),
     }
 
 
